@@ -6,10 +6,21 @@
       lincheck_sound        : lincheck S h = true -> linearizable S h
       lincheck_complete     : wf_history h -> linearizable S h -> lincheck S h = true
       lp_valid_linearizable : lp_valid S tr -> linearizable S (erase tr)
+      lp_valid_wf           : lp_valid S tr -> wf_history (erase tr)
+      wf_historyb_spec      : wf_historyb h = true <-> wf_history h
+      lincheck_memo_eq      : (forall a b, eqb a b = true -> a = b) ->
+                              lincheck_memo S eqb hash h = lincheck S h
+
+    Contents: Spec, histories, wf_history / wf_historyb, linearizable (the textbook definition),
+    lincheck (Wing-Gong search), annotated traces lp_valid / erase, lincheck_memo (optional, faster).
+
+    Usage note: the specification argument of [HInv]/[HRes]/[AInv]/... is implicit and cannot
+    always be inferred inside list literals; write [@HInv Fifo t o] or define a local
+    abbreviation (see the examples at the end of LinProofs.v).
 
     Plain stdlib, no ssreflect. *)
 
-Require Import List Arith Bool PeanoNat.
+Require Import List Arith Bool PeanoNat BinNums BinPos.
 Import ListNotations.
 
 Set Implicit Arguments.
@@ -250,19 +261,55 @@ End WithSpec.
 
 (** ** Optional: the same search with a cache of dead ends.
 
-    [lincheck_memo st_eqb h] explores the same tree as [lincheck], but remembers the pairs
-    (operations still to do, abstract state) from which the search failed and does not
-    explore them again; with a bounded number of threads this removes the exponential
-    blow-up on non-linearizable histories.  It needs a boolean equality on abstract states
-    that is sound ([st_eqb a b = true -> a = b]; it may answer [false] on equal states,
-    which only loses cache hits).  [LinProofs.lincheck_memo_eq] proves
-    [lincheck_memo st_eqb h = lincheck h], so all theorems about [lincheck] apply. *)
+    [lincheck_memo st_eqb st_hash h] explores the same tree as [lincheck], but remembers the
+    pairs (operations still to do, abstract state) from which the search failed and does not
+    explore them again.  It needs
+    - [st_eqb], a boolean equality on abstract states that is sound
+      ([st_eqb a b = true -> a = b]; answering [false] on equal states only loses cache hits);
+    - [st_hash], any function from states to [positive] (used only to spread the cache over a
+      binary trie: nothing is required of it, a constant function is merely slow).
+    [LinProofs.lincheck_memo_eq] proves [lincheck_memo st_eqb st_hash h = lincheck h], so all
+    theorems about [lincheck] apply. *)
 
 Section Memo.
-Context {Sp : Spec} (st_eqb : St Sp -> St Sp -> bool).
+Context {Sp : Spec} (st_eqb : St Sp -> St Sp -> bool) (st_hash : St Sp -> positive).
 
 (** a dead end: the positions of the invocations still to do, and the state *)
-Definition cache : Type := list (list nat * St Sp).
+Definition entry : Type := list nat * St Sp.
+
+(** the cache: a binary trie indexed by a hash of the entry; each node holds a bucket *)
+Inductive cache := CLeaf | CNode (l : cache) (es : list entry) (r : cache).
+
+Fixpoint cfind (p : positive) (c : cache) : list entry :=
+  match c with
+  | CLeaf => []
+  | CNode l es r =>
+      match p with xH => es | xO p' => cfind p' l | xI p' => cfind p' r end
+  end.
+
+Fixpoint cadd (p : positive) (e : entry) (c : cache) : cache :=
+  match p, c with
+  | xH, CLeaf => CNode CLeaf [e] CLeaf
+  | xH, CNode l es r => CNode l (e :: es) r
+  | xO p', CLeaf => CNode (cadd p' e CLeaf) [] CLeaf
+  | xO p', CNode l es r => CNode (cadd p' e l) es r
+  | xI p', CLeaf => CNode CLeaf [] (cadd p' e CLeaf)
+  | xI p', CNode l es r => CNode l es (cadd p' e r)
+  end.
+
+(** the hash of an entry: 20 bits mixing [st_hash s] and the positions [k] (a "times 33" hash) *)
+Fixpoint ptrunc (n : nat) (p : positive) : positive :=      (* the n low bits of p *)
+  match n, p with
+  | S n', xO q => xO (ptrunc n' q)
+  | S n', xI q => xI (ptrunc n' q)
+  | _, _ => xH
+  end.
+
+Definition pmix (acc x : positive) : positive :=
+  ptrunc 24 (Pos.add (Pos.add (xO (xO (xO (xO (xO acc))))) acc) x).
+
+Definition hash_entry (k : list nat) (s : St Sp) : positive :=
+  ptrunc 20 (fold_left (fun acc i => pmix acc (Pos.of_succ_nat i)) k (ptrunc 24 (st_hash s))).
 
 Fixpoint nats_eqb (a b : list nat) : bool :=
   match a, b with
@@ -271,8 +318,8 @@ Fixpoint nats_eqb (a b : list nat) : bool :=
   | _, _ => false
   end.
 
-Definition cached (k : list nat) (s : St Sp) (c : cache) : bool :=
-  existsb (fun e => nats_eqb (fst e) k && st_eqb (snd e) s) c.
+Definition cached (p : positive) (k : list nat) (s : St Sp) (c : cache) : bool :=
+  existsb (fun e => nats_eqb (fst e) k && st_eqb (snd e) s) (cfind p c).
 
 (** try the candidates [cands] one after the other, threading the cache through *)
 Fixpoint try_all (rec : list (oper (Sp:=Sp)) -> St Sp -> cache -> bool * cache)
@@ -293,13 +340,14 @@ Fixpoint msearch (fuel : nat) (todo : list oper) (s : St Sp) (c : cache) : bool 
   | 0 => (false, c)
   | S f =>
       let k := map o_inv todo in
-      if cached k s c then (false, c) else
+      let p := hash_entry k s in
+      if cached p k s c then (false, c) else
       let (b, c') := try_all (msearch f) todo s todo c in
-      if b then (true, c') else (false, (k, s) :: c')
+      if b then (true, c') else (false, cadd p (k, s) c')
   end.
 
 Definition lincheck_memo (h : history Sp) : bool :=
-  wf_historyb h && fst (msearch (length h) (ops_of h) (sinit Sp) []).
+  wf_historyb h && fst (msearch (length h) (ops_of h) (sinit Sp) CLeaf).
 
 End Memo.
 
